@@ -140,22 +140,22 @@ def query_flows(
         flows = m.flows
 
     if source:
+        source = source.copy()
         if "name" in source:
-            source = source.copy()
             name = source.pop("name")
             flows = [f for f in flows if f.source and f.source.name == name]
-        else:
-            source = frozenset(source.items())
-            flows = [f for f in flows if f.source and f.source._has_strata(source)]
+        # A strata filter applies to the source only; a flow without a source is not excluded
+        source = frozenset(source.items())
+        flows = [f for f in flows if (not f.source) or f.source._has_strata(source)]
 
     if dest:
+        dest = dest.copy()
         if "name" in dest:
-            dest = dest.copy()
             name = dest.pop("name")
             flows = [f for f in flows if f.dest and f.dest.name == name]
-        else:
-            dest = frozenset(dest.items())
-            flows = [f for f in flows if f.dest and f.dest._has_strata(source)]
+        # A strata filter applies to the destination only; a flow without one is not excluded
+        dest = frozenset(dest.items())
+        flows = [f for f in flows if (not f.dest) or f.dest._has_strata(dest)]
 
     if tags:
         if isinstance(tags, str):
